@@ -663,20 +663,26 @@ class Subscription(BaseSubscription):
 
 
 class QueryGarbageCollector(BaseGarbageCollector):
-    query = """
-        DELETE FROM events WHERE events.id IN
-        (
-            SELECT events.id FROM events
-            LEFT JOIN tags on tags.id = events.id
-            WHERE 
-                (kind >= 20000 and kind < 30000)
-            OR
-                (tags.name = 'expiration' AND tags.value < '%NOW%')
-        )
-    """
-
     async def collect(self, conn):
+        events = self.storage.EventTable
+        tags = get_metadata().tables["tags"]
+        now = int(time())
+        # expiration values are stored as text: '5' > '1700000000' > '10000000000' as strings,
+        # so they are compared as numbers here and malformed ones are left alone
         result = await conn.execute(
-            sa.text(self.query.replace("%NOW%", str(int(time()))))
+            sa.select(tags.c.id, tags.c.value).where(tags.c.name == "expiration")
         )
-        return max(0, result.rowcount)
+        expired = [
+            row[0]
+            for row in result
+            if isinstance(row[1], str) and row[1].isdigit() and int(row[1]) < now
+        ]
+        # ephemeral events
+        result = await conn.execute(
+            events.delete().where((events.c.kind >= 20000) & (events.c.kind < 30000))
+        )
+        collected = max(0, result.rowcount)
+        for event_id in expired:
+            result = await conn.execute(events.delete().where(events.c.id == event_id))
+            collected += max(0, result.rowcount)
+        return collected
